@@ -1,10 +1,10 @@
 CONSTANTS
-  Kind = "m"
-  MaxE = 3
+  Kind = "x"
+  MaxE = 5
   MaxUR = 3
   MaxF = 0
   UseStop = TRUE
-  Flat = FALSE
+  Flat = TRUE
   Pre = FALSE
 SPECIFICATION Spec
 INVARIANTS InvExact InvRoundTrip InvNearest InvBounded PrintSchedules
